@@ -205,6 +205,34 @@ def csum(b):
 fam = socket.AF_INET6 if v6 else socket.AF_INET
 icmp = socket.socket(fam, socket.SOCK_RAW, socket.IPPROTO_ICMPV6 if v6 else socket.IPPROTO_ICMP)
 udp = socket.socket(fam, socket.SOCK_DGRAM)
+# frames no IP stack would emit or deliver, put on the link below the IP layer: the source host's kernel discards them, its
+# capture sockets see them first
+pk, eth = None, b""
+if len(sys.argv) > 6:
+    pk = socket.socket(socket.AF_PACKET, socket.SOCK_RAW)
+    pk.bind((sys.argv[4], 0))
+    eth = bytes.fromhex(sys.argv[5].replace(":", "")) + bytes.fromhex(sys.argv[6].replace(":", ""))
+def ip4(totlen, ihl, proto, body, src="10.13.1.2", ver=4, frag=0):
+    h = struct.pack("!BBHHHBBH4s4s", (ver << 4) | ihl, 0, totlen & 0xffff, 7, frag, 64, proto, 0, socket.inet_aton(src), socket.inet_aton(dst if not v6 else "10.13.1.1"))
+    return h + body
+def l2_frames(n):
+    body = os.urandom(8 + n % 40)
+    return [
+        eth + b"\x08\x00" + ip4(0, 5, 1, body),                 # total length 0, protocol ICMP
+        eth + b"\x08\x00" + ip4(19, 5, 1, body),                # total length below the header length
+        eth + b"\x08\x00" + ip4(20 + len(body) + 400, 5, 1, body), # total length beyond the frame
+        eth + b"\x08\x00" + ip4(20 + len(body), 15, 1, body),   # header length beyond the frame
+        eth + b"\x08\x00" + ip4(20 + len(body), 0, 6, body),    # header length 0, protocol TCP
+        eth + b"\x08\x00" + ip4(20 + len(body), 5, 1, body, ver=7),
+        eth + b"\x08\x00" + ip4(20 + len(body), 5, 6, body, frag=0x2000 | 3),
+        eth + b"\x08\x00" + ip4(20, 5, 1, b""),                 # header only
+        eth + b"\x08\x00",                                     # no network layer at all
+        eth + b"\x86\xdd" + struct.pack("!IHBB", 0x60000000, 0, 58, 64) + os.urandom(32),           # IPv6, payload length 0, ICMPv6
+        eth + b"\x86\xdd" + struct.pack("!IHBB", 0x60000000, 900, 58, 64) + os.urandom(32 + 8),     # payload length beyond the frame
+        eth + b"\x86\xdd" + struct.pack("!IHBB", 0x60000000, 8, 44, 64) + os.urandom(32) + bytes([58, 0, 0, 1]) + os.urandom(4), # fragment header, nothing behind
+        eth + b"\x08\x06" + os.urandom(28),                    # ARP-typed garbage
+        eth[:12] + b"\x81\x00\x00\x05\x08\x00" + ip4(20 + len(body), 5, 1, body),                  # 802.1Q tag in front of IPv4
+    ]
 sys.stdout.write("ready\n"); sys.stdout.flush()
 n = 0
 end = time.time() + float(sys.argv[3])
@@ -235,6 +263,9 @@ while time.time() < end:
                 h = struct.pack("!BBHHH", 0, 0, 0, 1, n & 0xffff)
                 c = csum(h + body)
                 icmp.sendto(struct.pack("!BBHHH", 0, 0, c, 1, n & 0xffff) + body, (dst, 0))
+        elif k == 4 and pk is not None:
+            fr = l2_frames(n)
+            pk.send(fr[(n // 6) % len(fr)])
         else:        # small datagrams to closed ports
             udp.sendto(os.urandom(random.randrange(0, 64)), (dst, 30000 + n % 5000))
     except OSError:
@@ -376,7 +407,20 @@ func runKernelCfg(tag string, cfg kernelCfg) (out kernelOutcome) {
 	if cfg.v6 {
 		fam, src = "6", l.addr6(1, false)
 	}
-	la := labArgs([]string{"ip", "netns", "exec", l.ns[1], "python3", "-c", floodScript, src, fam, "30"})
+	// link-layer addresses of the first link (router 1's side l1, the source host's side r1) for the frames built below IP
+	mac := func(ns, dev string) string {
+		o, _ := run("ip", "-n", ns, "-o", "link", "show", dev)
+		if i := strings.Index(o, "link/ether "); i >= 0 && len(o) >= i+28 {
+			return o[i+11 : i+28]
+		}
+		return ""
+	}
+	floodArgs := []string{"ip", "netns", "exec", l.ns[1], "python3", "-c", floodScript, src, fam, "30"}
+	if dm, sm := mac(l.ns[0], "r1"), mac(l.ns[1], "l1"); dm != "" && sm != "" {
+		floodArgs = append(floodArgs, "l1", dm, sm)
+		out.counters["flood_with_link_layer_frames"]++
+	}
+	la := labArgs(floodArgs)
 	fl := exec.Command(la[0], la[1:]...)
 	stdout, _ := fl.StdoutPipe()
 	if err := fl.Start(); err != nil {
